@@ -181,6 +181,25 @@ def variant_producers(doc):
                 nameable.add(u["name"])
         elif r.get("name"):
             nameable.add(r["name"])
+    # public fields of public structs: reachable by plain field access
+    for k, v in idx.items():
+        if "struct" not in v["inner"] or v["visibility"] != "public":
+            continue
+        name = v["name"]
+        if name not in SEEDS or name in ("DB", "Tx"):
+            continue
+        lets, sexpr = SEEDS[name]
+        kind = v["inner"]["struct"]["kind"]
+        fields = []
+        if isinstance(kind, dict) and "plain" in kind:
+            fields = [(idx[str(f)]["name"], idx[str(f)]) for f in kind["plain"]["fields"] if str(f) in idx]
+        elif isinstance(kind, dict) and "tuple" in kind:
+            fields = [(str(j), idx[str(f)]) for j, f in enumerate(kind["tuple"]) if f is not None and str(f) in idx]
+        for fname, fitem in fields:
+            if fitem.get("visibility") != "public":
+                continue
+            out.append({"id": "field:%s.%s" % (name, fname), "lets": lets, "expr": "%s.%s" % (sexpr, fname), "out": "field", "outfull": "field", "consumes_seed": True})
+            out.append({"id": "field:%s.%s.clone" % (name, fname), "lets": lets, "expr": "%s.%s.clone()" % (sexpr, fname), "out": "field", "outfull": "field", "consumes_seed": False})
     for k, v in idx.items():
         if "enum" not in v["inner"] or v["visibility"] != "public":
             continue
@@ -329,6 +348,8 @@ def route_fns(i, p):
     fns["b_%d" % i] = "pub fn b_%d(db: &DB) {\n        let tx = db.tx(true).unwrap();\n        %s\n        let r = %s;\n        tx.commit().unwrap();\n        sink(&r);\n}\n" % (i, lets, e)
     fns["c_%d" % i] = "pub fn c_%d(db: &DB) -> impl Sized + '_ {\n        let tx = db.tx(true).unwrap();\n        %s\n        let r = %s;\n        r\n}\n" % (i, lets, e)
     fns["f_%d" % i] = "pub fn f_%d(path: &str) {\n    let escaped;\n    {\n        let db = DB::open(path).unwrap();\n        let tx = Box::leak(Box::new(db.tx(true).unwrap()));\n        %s\n        let r = %s;\n        escaped = r;\n    }\n    sink(&escaped);\n}\n" % (i, lets, e)
+    # ordinary usage: the value outlives the intermediate handles it was obtained through, not the transaction
+    fns["h_%d" % i] = "pub fn h_%d(db: &DB) {\n        let tx = db.tx(true).unwrap();\n        let r = {\n        %s\n        %s\n        };\n        sink(&r);\n}\n" % (i, lets, e)
     fns["t_%d" % i] = "pub fn t_%d(db: &DB) {\n        let tx = db.tx(true).unwrap();\n        %s\n        let r = %s;\n        std::thread::scope(|s| { s.spawn(move || sink(&r)); });\n}\n" % (i, lets, e)
     fns["u_%d" % i] = "pub fn u_%d(db: &'static DB) {\n        let tx = db.tx(true).unwrap();\n        %s\n        let r = %s;\n        std::thread::spawn(move || sink(&r));\n}\n" % (i, lets, e)
     fns["v_%d" % i] = "pub fn v_%d(db: &DB) {\n        let tx = db.tx(true).unwrap();\n        %s\n        let r = %s;\n        std::thread::scope(|s| { s.spawn(|| sink(&r)); });\n}\n" % (i, lets, e)
@@ -490,7 +511,7 @@ def main():
         fns[n] = "pub fn %s(db: &DB) {\n    %s\n}\n" % (n, body)
 
     # thread routes produce E0277 (a type error): keep them in their own unit
-    life = {n: s for n, s in fns.items() if n[0] in "abcfge" or n.startswith("ctl_")}
+    life = {n: s for n, s in fns.items() if n[0] in "abcfgeh" or n.startswith("ctl_")}
     thread = {n: s for n, s in fns.items() if n[0] in "tuvm"}
     res = {}
     res.update(compile_unit(life, rlib, deps, "life"))
@@ -507,6 +528,8 @@ def main():
                 violations.append(("control_rejected", "positive control %s must compile but rustc says %s %s" % (n, codes, msgs[:1]), {"program": fns[n]}))
             continue
         route = n[0]
+        if route == "h":
+            continue  # judged against the baseline below
         if status == "borrow":
             rejected += 1
         elif status == "type":
@@ -542,6 +565,28 @@ def main():
             toks = set(re.findall(r"[A-Za-z_]+", full))
             if toks & set(HANDLE_TYPES) or (p["id"].startswith("seed:") and p["id"] != "seed:Bytes"):
                 violations.append(("handle_escapes:" + p["id"], "producer `%s` (result type %s) %s: the program compiles although the value borrows the transaction" % (p["expr"], full or "?", route_names[n[0]]), {"program": fns[n], "producer": p["id"], "route": n[0]}))
+    # ordinary usage (route h): whatever the pinned types accepted must still be accepted
+    base_path = os.path.join(ROOT, "golden", "typex_ordinary_baseline.json")
+    h_now = {}
+    for n, (status, codes, msgs) in res.items():
+        if n[0] == "h" and n in owner:
+            h_now[owner[n][1]["id"]] = "compiled" if status == "compiled" else ("rejected" if status == "borrow" else "other:" + ",".join(codes))
+    if "--write-baseline" in sys.argv:
+        json.dump(h_now, open(base_path, "w"), indent=1, sort_keys=True)
+        print("baseline written: %d producers, %d compile" % (len(h_now), sum(1 for v in h_now.values() if v == "compiled")))
+    try:
+        h_base = json.load(open(base_path))
+    except Exception:
+        h_base = {}
+        gen_gaps.append("no baseline of ordinary-usage programs (golden/typex_ordinary_baseline.json)")
+    h_checked = 0
+    for pid, was in sorted(h_base.items()):
+        if was != "compiled" or pid not in h_now:
+            continue
+        h_checked += 1
+        if h_now[pid] != "compiled":
+            n = next(k for k in owner if k[0] == "h" and owner[k][1]["id"] == pid)
+            violations.append(("ordinary_usage_rejected:" + pid, "a value obtained through temporary handles and used while its transaction is still open (`let r = { ..handles..; %s }; use(&r)`) compiled with the pinned types and is now rejected (%s)" % (owner[n][1]["expr"], h_now[pid]), {"program": fns[n], "producer": pid, "route": "h"}))
     # argument / database routes must be rejected
     for n, _ in ARG_ROUTES:
         st = res.get(n, ("type", [], []))
